@@ -445,14 +445,15 @@ func TestVerifC12(t *testing.T) {
 		}
 		return o
 	}
+	// cheap scenarios first: ExploreAll hands the unused share of the wall budget to the later ones
 	scenarios := []c12Scenario{
-		{name: "tb-arrival", strategy: "tb", alphabet: cat([]c12Ev{c12Tell}, adv), depth: vsched.Pick(5, 7)},
-		{name: "tb-pause", strategy: "tb", alphabet: []c12Ev{c12Tell, c12Adv100, c12AdvTm1, c12AdvTp1, c12Pause, c12Resume}, depth: vsched.Pick(5, 7)},
-		{name: "tb-suspend", strategy: "tb", alphabet: []c12Ev{c12Tell, c12AdvTm1, c12AdvTp1, c12Pause, c12Resume, c12FailEv, c12Reinstate}, depth: vsched.Pick(5, 6)},
-		{name: "tb-killgate", strategy: "tb", alphabet: []c12Ev{c12Tell, c12AdvTm1, c12AdvTp1, c12Kill, c12Rel}, depth: vsched.Pick(5, 7), killGate: true},
-		{name: "tb-slow", strategy: "tb", alphabet: []c12Ev{c12Tell, c12TellSlow, c12Adv100, c12AdvTm100m1, c12AdvTm1, c12AdvTp1}, depth: vsched.Pick(5, 6)},
-		{name: "mc", strategy: "mc", alphabet: []c12Ev{c12Tell, c12AdvTp1, c12Pause, c12Resume, c12FailEv, c12Reinstate, c12Kill}, depth: vsched.Pick(5, 7)},
+		{name: "tb-killgate", strategy: "tb", alphabet: []c12Ev{c12Tell, c12AdvTm1, c12AdvTp1, c12Kill, c12Rel}, depth: vsched.Pick(5, 8), killGate: true},
+		{name: "tb-arrival", strategy: "tb", alphabet: cat([]c12Ev{c12Tell}, adv), depth: vsched.Pick(5, 9)},
 		{name: "longlived", strategy: "ll", alphabet: []c12Ev{c12Tell, c12AdvTp1, c12Pause, c12Resume, c12FailEv, c12Reinstate}, depth: vsched.Pick(4, 6)},
+		{name: "tb-slow", strategy: "tb", alphabet: []c12Ev{c12Tell, c12TellSlow, c12Adv100, c12AdvTm100m1, c12AdvTm1, c12AdvTp1}, depth: vsched.Pick(5, 7)},
+		{name: "tb-pause", strategy: "tb", alphabet: []c12Ev{c12Tell, c12Adv100, c12AdvTm1, c12AdvTp1, c12Pause, c12Resume}, depth: vsched.Pick(5, 7)},
+		{name: "mc", strategy: "mc", alphabet: []c12Ev{c12Tell, c12AdvTp1, c12Pause, c12Resume, c12FailEv, c12Reinstate, c12Kill}, depth: vsched.Pick(5, 6)},
+		{name: "tb-suspend", strategy: "tb", alphabet: []c12Ev{c12Tell, c12AdvTm1, c12AdvTp1, c12Pause, c12Resume, c12FailEv, c12Reinstate}, depth: vsched.Pick(5, 6)},
 	}
 	var scs []vsched.Scenario
 	for _, sc := range scenarios {
@@ -466,5 +467,10 @@ func TestVerifC12(t *testing.T) {
 			Run: func(c *vsched.Chooser) vsched.Outcome { return c12Run(t, sc, c) },
 		})
 	}
-	vsched.ExploreAll(scs)
+	// Not ExploreAll: its equal per-scenario share of the wall budget starves the first scenario when
+	// the shard processes start on a busy machine; the scenarios here are small compared with the budget,
+	// so they simply run one after the other against the global budget (cheap ones first).
+	for _, sc := range scs {
+		vsched.Explore(sc.Cfg, sc.Run)
+	}
 }
